@@ -49,7 +49,7 @@ func checkC08(c *Ctx, r *Report) {
 	roomTestsNeeded(c, r, "C08.R3.room-tests", "PackRR into a buffer of exactly Len(rr) octets (ToRFC3597 does that) fails with 'buffer size too small' for a valid record whose last field is empty (CAA 0 issue \"\", URI with an empty target)")
 	base64Agreement(c, r, "C08.R1.base64-encoding")
 	lenSearchOffset(c, r, "C08.R2.len-search-offset")
-	borrow(c, r, c04R2, "C04.R2.gate", "C08.R2.pack-gate", 2, "PackBuffer decides whether to compress with the same predicate Len uses (Compress && isCompressible())", nil, "Len() counts compression pointers Pack never writes: it is smaller than the packed message")
+	borrow(c, r, c04R2, "C04.R2.gate", "C08.R2.pack-gate", 1, "PackBuffer decides whether to compress with the same predicate Len uses (Compress && isCompressible())", nil, "Len() counts compression pointers Pack never writes: it is smaller than the packed message")
 	hintWidth(c, r, "C08.R1.hint-width")
 	windowGuardsAgree(c, r, "C08.R1.window-guards")
 	lenSearchKey(c, r, "C08.R2.len-search-key", "Len() is smaller than the packed message for names spelled in two letter cases")
@@ -325,7 +325,7 @@ func c08R3(c *Ctx, r *Report) {
 }
 
 func c08R4(c *Ctx, r *Report) {
-	r.rule("C08.R4.same-gate", 2, "Msg.Len simulates compression under the same condition PackBuffer compresses")
+	r.rule("C08.R4.same-gate", 1, "Msg.Len simulates compression under the same condition PackBuffer compresses")
 	fn := c.ssaFunc("Msg.Len")
 	if fn == nil {
 		r.cerr("C08.R4.same-gate", "Msg.Len", "function not found")
@@ -343,6 +343,26 @@ func c08R4(c *Ctx, r *Report) {
 	for i, ci := range calls {
 		construct := fmt.Sprintf("Msg.Len->msgLenWithCompressionMap#%d", i+1)
 		arg := ci.Common().Args[1]
+		if phi, isPhi := arg.(*ssa.Phi); isPhi {
+			// one call, the map nil or made depending on the way in: a made map only where both guards hold, nil
+			// only where they do not both hold
+			var problems []string
+			for k, e := range phi.Edges {
+				facts := factsOnEdge(fn, phi.Block().Preds[k], phi.Block())
+				miss := guardsMissingFacts(fn, facts, gs)
+				if isNilConst(e) {
+					if len(miss) == 0 {
+						problems = append(problems, "the uncompressed length is computed although Compress && isCompressible() holds")
+					}
+					continue
+				}
+				if len(miss) > 0 {
+					problems = append(problems, "compression is simulated without "+strings.Join(miss, ", ")+" although PackBuffer requires it")
+				}
+			}
+			r.check(len(problems) == 0, "C08.R4.same-gate", construct, c.pos(ci.Pos()), "map made under Compress && isCompressible() only", "%s", strings.Join(problems, "; "))
+			continue
+		}
 		if isNilConst(arg) {
 			// must be the complement: not reachable when both guards hold -> it suffices that the non-nil call is guarded
 			r.ok("C08.R4.same-gate", construct, c.pos(ci.Pos()), "uncompressed length")
